@@ -345,8 +345,9 @@ def run(rep: Report, prog: Program, tier: str) -> None:
     from types import SimpleNamespace as _NS
     val_f = prog.func(PC + ".__validate_description")
     loops = [n for n in val_f.node.body if isinstance(n, ast.For) and unparse(n.iter) == "description.media"]
-    if len(loops) != 1:
+    if not loops:
         raise AnalysisError("__validate_description: per-section loop `for media in description.media` not found at the top level")
+    all_loops = ast.Module(body=list(loops), type_ignores=[])      # several per-section loops are evaluated one after the other, in source order
 
     def section(kind: str, **defect) -> Any:
         m = _NS(kind=kind, ice=_NS(usernameFragment="ufrag", password="pwd"), dtls=_NS(role="client"), rtcp_mux=(kind != "application"),
@@ -411,10 +412,10 @@ def run(rep: Report, prog: Program, tier: str) -> None:
             # the verdict may not depend on what the connection has been through: every field of the connection the loop reads is tried
             # both as __init__ leaves it and as it looks after an earlier negotiation
             verdicts = []
-            for hist_label, self_obj in _histories(loops[0], {"description": _NS(type=typ, media=media), "is_local": False}):
+            for hist_label, self_obj in _histories(all_loops, {"description": _NS(type=typ, media=media), "is_local": False}):
                 ev4 = Evaluator(prog, val_f.module, val_f.cls, {"description": _NS(type=typ, media=media), "self": self_obj, "is_local": False})
                 try:
-                    ev4.exec_stmt(loops[0])
+                    ev4.exec_block(loops)
                     rejected = False
                 except Raised as ex:
                     rejected = ex.name
@@ -604,3 +605,7 @@ def run(rep: Report, prog: Program, tier: str) -> None:
         else:
             rep.fail(mk_finding(prog, PROP, "C14-IMPLICIT", sld, imp_if, f"implicit setLocalDescription() in state {state} calls {made}, the JSEP state machine allows {want}() there: a legal call is refused "
                                 "(createAnswer raises InvalidStateError without a remote offer) or the wrong kind of description is applied", construct=f"implicit description in {state}"))
+
+    # ---------------- C14-SIM: call sequences through the negotiation simulator (rules/pcnego.py)
+    from .pcnego import c14_sim
+    c14_sim(rep, prog, tier)
